@@ -299,6 +299,16 @@ class LifecycleRun:
                           lambda: f"verify(pw, None) computed {n} digests of the default scheme ({self.default}); expected {exp} "
                                   f"({'first call after (re)load' if self.fresh else 'dummy hash memoised'})", fresh=self.fresh)
                 self.fresh = False
+        if self.default in ("des_crypt", "lmhash", "django_des_crypt", "ldap_des_crypt"):
+            # the same context with the size-limit policy "refuse instead of truncating" on its default scheme: the library's own
+            # dummy password is the library's business, a missing hash still answers False
+            from passlib.context import CryptContext as _CC
+
+            tw = _call(lambda: _CC(**dict(self.cc.to_dict(), **{self.default + "__truncate_error": True})))
+            if tw[0] == "ok":
+                for fn, want in ((lambda: tw[1].verify(rec["pw"][:5], None, **self.ckw), False), (lambda: tw[1].verify_and_update(rec["pw"][:5], None, **self.ckw), (False, None))):
+                    r = _call(fn)
+                    ctx.check(r == ("ok", want), "C18", "verify-none-answer", f"with {self.default}__truncate_error=True: -> {r[:2]}, expected {want}", pw="truncate-policy")
         # "always False": also for the one password an attacker can read in the library's source -- the fixed secret whose hash the
         # dummy verification compares against (str and bytes), and for the empty password
         from passlib.context import CryptContext
